@@ -1049,3 +1049,49 @@ def render_model_function(lb, ops, m):
         img += pushint(0) + pushint(1) + L("LB_NIL")
     allidx = list(m["envs"]) + list(m["sub"] or [])
     return img, "function %d %d %s" % (m["len"], len(m["envs"]), " ".join(str(wrap32(e)) for e in allidx))
+
+
+# ------------------------------------------------------------------------------------------------ janet_env_valid cases
+# A function whose single environment is the untrusted ON-STACK variant (offset K > 0, length L, fiber = a dead fiber with a
+# chain of 1..5 frames).  Frames may point back at that environment (LB_FUNCENV_REF 0), carry another one, or none.  K and L
+# are chosen around the frame starts and slot counts.  -> (image, model line `envvalid -K L <frame> {prevframe envIsThis hasFunc slotcount}*`)
+def gen_env_valid_case(rng, lb, ops):
+    bn = ops.by_name
+    L = lambda k: bytes([lb[k]])
+    w = lambda x: struct.pack("<I", x & 0xFFFFFFFF)
+    i0 = pushint(0)
+    nfr = rng.choice([1, 1, 2, 3, 4, 5])
+    slots = [rng.choice([1, 2, 3, 5, 8]) for _ in range(nfr)]       # bottom first
+    starts, cur = [], FRAME_SIZE
+    for s in slots:
+        starts.append(cur)
+        cur += s + FRAME_SIZE
+    stackstart = cur
+    kinds = [rng.choice(["this", "this", "none", "other"]) for _ in range(nfr)]
+    # K, L
+    j = rng.below(nfr)
+    if rng.chance(2, 3):
+        kinds[j] = "this"
+    K = starts[j] if rng.chance(3, 5) else rng.choice([starts[j] + 1, max(1, starts[j] - 1), starts[j] + slots[j], stackstart, stackstart + 7, 1, 4, 2 ** 20])
+    Ln = slots[j] if rng.chance(3, 5) else rng.choice([slots[j] + 1, max(0, slots[j] - 1), 0, 1, 100, 2 ** 24])
+    fiber = L("LB_FIBER") + i0 + pushint(starts[-1]) + pushint(stackstart) + pushint(stackstart) + pushint(stackstart + 100)
+    recs = []
+    for idx in range(nfr - 1, -1, -1):                              # top-most first
+        prev = starts[idx - 1] if idx > 0 else 0
+        ff = (2 if idx == 0 else 0) | (FRAME_HASENV if kinds[idx] != "none" else 0)
+        fn = L("LB_FUNCTION") + i0 + pushint(0) + pushint(slots[idx]) + i0 + i0 + pushint(0x7fffffff) + i0 + pushint(2) + \
+            w(bn["JOP_CALL"] | 0 << 8 | 0 << 16) + w(bn["JOP_RETURN_NIL"])
+        fiber += pushint(ff) + pushint(prev) + i0 + fn
+        if kinds[idx] == "this":
+            fiber += L("LB_FUNCENV_REF") + i0
+        elif kinds[idx] == "other":
+            fiber += i0 + pushint(1) + L("LB_NIL")
+        fiber += L("LB_NIL") * slots[idx]
+        recs.append("%d %d 1 %d" % (prev, 1 if kinds[idx] == "this" else 0, slots[idx]))
+    fiber += L("LB_NIL")                                            # last_value
+    # the function itself reads upvalue V of that environment when called: `ldu 0 0 V; ret 0`
+    V = rng.choice([0, 0, 1, min(255, max(0, Ln - 1)), 200, 255])
+    top = L("LB_FUNCTION") + pushint(1) + pushint(FLAG_HASENVS) + pushint(1) + i0 + i0 + pushint(0x7fffffff) + i0 + pushint(2) + pushint(1) + \
+        w(bn["JOP_LOAD_UPVALUE"] | 0 << 8 | 0 << 16 | V << 24) + w(bn["JOP_RETURN"] | 0 << 8) + pushint(-1)
+    img = top + pushint(K) + pushint(Ln) + fiber
+    return img, "envvalid %d %d %d %s" % (-K, Ln, starts[-1], " ".join(recs)), "K=%d L=%d V=%d frames=%s" % (K, Ln, V, list(zip(starts, slots, kinds)))
